@@ -243,6 +243,11 @@ class SynthDesc():
                 self.has_variants = num_variants > 0
                 # // maybe later, read in variant names and values
                 # // this is harder than it might seem at first
+                # The blocks have to be consumed anyway, another
+                # definition may follow in the same file.
+                for _ in range(num_variants):
+                    frw.read_pascal_str(stream)
+                    frw.read_f32_list(stream, num_controls)
 
                 self.sdef._constants = dict()
                 for i, k in enumerate(self.constants):
